@@ -15,6 +15,7 @@
 #include "contracts/timerdns.h"
 #ifdef XV_CBMC
 int64_t nondet_int64(void);
+const void *nondet_cptr(void);
 static inline void xv_td_havoc(void)
 {
     xv_rk = nondet_int(); xv_rf = nondet_int(); xv_tk = nondet_int64();
@@ -22,7 +23,22 @@ static inline void xv_td_havoc(void)
     __CPROVER_havoc_object(&xv_tmg);
     __CPROVER_havoc_object(&xv_ar);
     xv_g_nregs = nondet_int();
-    xv_g_ptr = NULL; xv_g_ptr2 = NULL;
+    xv_g_ptr = nondet_cptr(); xv_g_ptr2 = nondet_cptr();
+}
+/* ANY query object (see XQ_FRESH in contracts/timerdns.h): arbitrary content, with a channel, a name, an xpoll instance and a
+ * timer manager of its own (the last two opaque); the c-ares model's callback argument is this query */
+static inline struct xcm_dns_query *xv_q_any(void)
+{
+    struct xcm_dns_query *q = malloc(sizeof(struct xcm_dns_query));
+    __CPROVER_assume(q != NULL);
+    q->channel = malloc(sizeof(struct ares_channeldata));
+    q->domain_name = malloc(1);
+    q->xpoll = malloc(1);
+    q->timer_mgr = malloc(1);
+    __CPROVER_assume(q->channel != NULL && q->domain_name != NULL && q->xpoll != NULL && q->timer_mgr != NULL);
+    xv_ar.arg = q;
+    xv_g_ptr = q->domain_name; xv_g_ptr2 = q->channel;
+    return q;
 }
 /* ANY answer list of c-ares: 0..XV_NODES_MAX nodes (get_ips reads at most 32 + 1 of them), each IPv4 or IPv6 with a socket address
  * of its family (TRUSTED c-ares: ares_getaddrinfo makes nothing else), arbitrary address bytes.
